@@ -1087,6 +1087,9 @@ class MoneyConverter:
             else:
                 validity = (dt.year, dt.month)
         elif isinstance(validity, int):
+            # an instance of a sub-class of int (a member of an IntEnum, ...)
+            # is taken as the int it is
+            validity = int(validity)
             try:
                 date(validity, 1, 1)  # verify year
             except ValueError:
@@ -1095,6 +1098,9 @@ class MoneyConverter:
         elif isinstance(validity, datetime):
             # a datetime is a date: the day it lies in
             validity = validity.date()
+        elif isinstance(validity, date) and type(validity) is not date:
+            # so is an instance of any other sub-class of date
+            validity = date(validity.year, validity.month, validity.day)
         elif not (validity is None or isinstance(validity, date)):
             raise ValueError(f"Not a valid period: {validity}.")
         # check type of validity
